@@ -235,6 +235,9 @@ func Read(r *bufio.Reader, l *log.Logger) (Message, error) {
 			if err != nil {
 				return nil, err
 			}
+			if lr.(*io.LimitedReader).N > 0 {
+				return nil, io.ErrUnexpectedEOF
+			}
 			m := Extended0{}
 
 			m.Version = ext.Version
@@ -267,6 +270,9 @@ func Read(r *bufio.Reader, l *log.Logger) (Message, error) {
 			_, err = io.Copy(io.Discard, lr)
 			if err != nil {
 				return nil, err
+			}
+			if lr.(*io.LimitedReader).N > 0 {
+				return nil, io.ErrUnexpectedEOF
 			}
 			var added, dropped []pex.Peer
 			if info.Added != nil && len(info.Added)%6 == 0 {
